@@ -101,28 +101,47 @@ pub fn rename_file(files: &mut Vec<(String, Vec<Line>)>, old: &str, new: &str) {
     }
 }
 
-/// Give two included files in different directories the same base name.
+/// Give two included files in different directories the same base name - preferably such that the
+/// two directives that name them then read the same (the same path text, two different files).
 pub fn clash_basenames(files: &mut Vec<(String, Vec<Line>)>, ch: &mut Choices) {
-    use crate::paths::dir_of;
+    use crate::paths::{dir_of, relpath, resolve};
     let n = files.len();
-    let mut pairs = vec![];
+    // the file that includes each file (first one found)
+    let includer = |k: usize| -> Option<usize> {
+        files.iter().position(|(host, ls)| {
+            ls.iter().any(|l| matches!(l, Line::Dir(d, ops) if d == ".include" && matches!(ops.first(), Some(Opd::S(p)) if resolve(host, p) == files[k].0)))
+        })
+    };
+    let new_name = |a: usize, b: usize| -> String {
+        let base = files[a].0.rsplit('/').next().unwrap_or("x.s").to_string();
+        let d = dir_of(&files[b].0).to_string();
+        if d.is_empty() {
+            base
+        } else {
+            format!("{d}/{base}")
+        }
+    };
+    let mut same_text = vec![];
+    let mut any = vec![];
     for a in 1..n {
         for b in 1..n {
-            if a != b && dir_of(&files[a].0) != dir_of(&files[b].0) {
-                pairs.push((a, b));
+            if a == b || dir_of(&files[a].0) == dir_of(&files[b].0) || files.iter().any(|f| f.0 == new_name(a, b)) {
+                continue;
+            }
+            any.push((a, b));
+            if let (Some(ia), Some(ib)) = (includer(a), includer(b)) {
+                if ib != b && relpath(&files[ia].0, &files[a].0) == relpath(&files[ib].0, &new_name(a, b)) {
+                    same_text.push((a, b));
+                }
             }
         }
     }
-    if pairs.is_empty() {
+    let pool = if !same_text.is_empty() { same_text } else { any };
+    if pool.is_empty() {
         return;
     }
-    let (a, b) = *ch.pick(&pairs);
-    let base = files[a].0.rsplit('/').next().unwrap_or("x.s").to_string();
-    let d = dir_of(&files[b].0).to_string();
-    let new = if d.is_empty() { base } else { format!("{d}/{base}") };
-    if files.iter().any(|f| f.0 == new) {
-        return;
-    }
+    let (a, b) = *ch.pick(&pool);
+    let new = new_name(a, b);
     let old = files[b].0.clone();
     rename_file(files, &old, &new);
 }
